@@ -135,6 +135,8 @@ type c17Out struct {
 	Relay       []*c17Relay      `json:"relay"`
 	Fpub        []*c17Fpub       `json:"fpub"`
 	Fanout      []*c17Fanout     `json:"fanout"`
+	Redeliv     []*c17Redeliv    `json:"redeliv"`
+	Chain       []*c17Chain      `json:"chain"`
 	FaninCfg    []c17FaninCfg    `json:"fanin_cfg"`
 	RequeuerCfg []c17RequeuerCfg `json:"requeuer_cfg"`
 	Atoi        [][2]int64       `json:"atoi"`  // (string id, value) where strconv.Atoi succeeds
@@ -1206,6 +1208,9 @@ func cmdC17(args []string) error {
 		return err
 	}
 	if err := s.fanoutGroup(next(), map[string]int{"x": 2, "y": 1}, true, 12*k, false); err != nil {
+		return err
+	}
+	if err := s.redelivGroups(next, k); err != nil {
 		return err
 	}
 	if atomic.LoadInt32(&s.barrierOff) != 0 {
